@@ -41,7 +41,7 @@ def doc_index(d):
 
 
 def add(fam, text, d, span=None):
-    c = {"e": "eval", "fam": fam, "text": cps(text), "d": doc_index(d)}
+    c = {"e": "eval", "fam": fam, "text": cps(text), "d": doc_index(d)}      # (d = None: the null document)
     if span:
         c["span"] = list(span)          # [lo, hi): character offsets of the sub-expression whose failure is the one to be reported
     cases.append(c)
@@ -199,7 +199,7 @@ for a in args1:
 # two failing sub-expressions in one expression: evaluation is left to right and the FIRST failure is the one reported (short-circuit
 # operators skip the right side; arguments are evaluated before the call is looked up and validated)
 edoc = {"a": [1, 2], "s": "x", "n": 1, "t": True, "f": False, "z": None}
-fails = ["abs(s)", "abs()", "nosuch(n)", "a[::0]", "length(n)", "keys(a)", "sum(s)", "abs(n, n)"]
+fails = ["abs(s)", "abs()", "nosuch(n)", "a[::0]", "length(n)", "keys(a)", "sum(s)", "abs(n, n)", "abs(s, n)", "starts_with(n)", "map(@)", "length(n, s)", "join(a)", "sort_by(s)", "contains(n, n, n)"]
 oks = ["n", "z", "t", "f", "s", "a", "abs(n)"]
 ctx = ["%s || %s", "%s && %s", "%s == %s", "%s | %s", "[%s, %s]", "{x: %s, y: %s}", "not_null(%s, %s)", "%s < %s", "a[?%s].x || %s", "!%s || %s",
        "nosuch(%s, %s)", "abs(%s, %s)", "contains(%s, %s)", "a[*].[%s, %s]", "map(&%s, a) || %s", "sort_by(a, &%s) || %s", "(%s).x || %s", "%s.x.y && %s"]
@@ -262,7 +262,8 @@ OPS = ["==", "!=", "<", "<=", ">", ">="]
 # ---------------------------------------------------------------- mapnull
 # expression references whose body does not read its input (literals, multi-selects of literals) or reads it trivially, applied by map /
 # projections / by-functions over arrays with null and non-null elements at every position: a multi-select on null IS null, a literal is not
-mdocs = [[1, None, 2], [None, 7], [None], [{"k": 1}, None, "x"], [None, True, None], [[1], None, {"k": None}], [], [0, "", None, [], {}]]
+mdocs = [[1, None, 2], [None, 7], [None], [{"k": 1}, None, "x"], [None, True, None], [[1], None, {"k": None}], [], [0, "", None, [], {}], [1, None, [None, "a"]], [[None], None, True],
+         [[[1]], None, [[2]]]]
 bodies = ["`1`", "[`1`]", "{k: `1`}", "[`3`, `4`][1]", "{k: `\"v\"`, n: length(`\"ab\"`)}", "[`1`, @]", "@", "k", "[k]", "{x: k}", "[@]", "`null`", "'s'", "[`1`][0]", "[]", "*",
           "[*]", "!@", "@ == `null`", "type(@)", "not_null(@, `0`)", "[`1`] | [0]", "`[1]`[0]", "[`1`][*]", "{k: `1`}.k", "[`1`] || `2`", "`1` && [`1`]", "(@ || `1`) && [`2`]"]
 for d in mdocs:
@@ -270,6 +271,11 @@ for d in mdocs:
         add("mapnull", "map(&%s, @)" % b, d)
         # (a multi-select list after a dot that is stepped into again is known finding F15's form: through map only)
         add("mapnull", "[*].%s" % b if not b.startswith(("`", "'", "!", "@", "(")) and "][" not in b else "[*] | map(&%s, @)" % b, d)
+    # the same through a flatten projection, whose right-hand side sees null elements too (nested ones after the splice)
+    for b in ["type(@)", "to_string(@)", "not_null(@, 'dflt')", "[@]", "{k: @}", "k", "@", "[`1`]", "length(to_array(@))", "@ == `null`"]:
+        add("mapnull", "[].%s" % b if not b.startswith("@") else "[] | map(&%s, @)" % b, d)
+        add("mapnull", "[[@, `null`], @][].%s" % b if not b.startswith("@") else "[[@, `null`], @][] | map(&%s, @)" % b, d)
+        add("mapnull", "length([].%s)" % b if not b.startswith("@") else "length([])", d)
     for b in ["`1`", "'s'", "[`1`][0]", "{k: `1`}.k", "[`1`]", "`null`", "length([`1`, @])", "type(@)", "@ == `null` && `0` || `1`"]:
         for f in ("sort_by", "max_by", "min_by"):
             add("mapnull", "%s(@, &%s)" % (f, b), d)
@@ -437,6 +443,72 @@ for arr in ("items", "three", "late", "first"):
     for ke in keyexprs:
         add("byorder", "map(&%s, %s)" % (ke, arr), bdoc2)
         add("byorder", "%s[*].%s" % (arr, ke.strip("()") if ke.startswith("(k[0]") else ke), bdoc2) if not ke.startswith("(") else None
+# ================================================================ round 7 families
+# ---------------------------------------------------------------- bykeys
+# by-functions (and map) with every form of key expression: negative and positive indexes, slices, nested paths, pipes, filters, calls,
+# groups -- an expression reference means what its body means on each element
+brows = [{"id": "a", "v": [5, 1, 9], "p": {"q": [7, 0, 3]}, "n": 2}, {"id": "b", "v": [4, 3, 2], "p": {"q": [3, 8, 1]}, "n": 1}, {"id": "c", "v": [6, 2, 7], "p": {"q": [1, 2, 9]}, "n": 3}]
+bks = ["v[-1]", "v[-2]", "v[-3]", "v[0]", "v[1]", "v[2]", "v[1:][0]", "v[::-1][0]", "p.q[-2]", "p.q[-3]", "p.q[1]", "@.v[-2]", "(v)[-2]", "(v[-2])", "v | [-2]", "v[?@ > `2`] | [-1]", "length(v)",
+       "not_null(v[-2], `0`)", "v[-2] || n", "n", "max(v)", "sum(v[-2:])", "v[:-1][-1]", "[v[-2]][0]", "{k: v[-2]}.k", "to_string(v[-2])", "id", "v[-2] && id"]
+for ke in bks:
+    for f in ("sort_by", "max_by", "min_by"):
+        add("bykeys", "%s(@, &%s)%s" % (f, ke, "[*].id" if f == "sort_by" else ".id"), brows)
+    add("bykeys", "map(&%s, @)" % ke, brows)
+    add("bykeys", "[*].%s" % ke if not ke.startswith(("(", "[", "{", "@")) else "map(&%s, @) | [0]" % ke, brows)
+for ke in ["[-2]", "[-3]", "[0]", "[-1]", "[1:] | [0]", "@[-2]", "sum(@)"]:
+    for f in ("sort_by", "max_by", "min_by"):
+        add("bykeys", "%s(@, &%s)" % (f, ke), [[3, 1, 4], [1, 9, 2], [2, 5, 6]])
+# ---------------------------------------------------------------- msnull
+# a multi-select list / hash followed at once by every postfix operator, on a null current node (behind a pipe, on a null element inside
+# an expression reference, on the null document) and on a non-null one: a multi-select on null IS null, nothing of it is evaluated
+mdoc2 = {"a": [1], "b": [2, 3], "c": {}, "s": "x"}
+mss = ["[a, b]", "[@, `1`]", "[length(@)]", "{x: a, y: b}", "[a]", "[`1`, `2`]", "{k: `1`}", "[nosuch(@)]"]
+mposts = ["[]", "[0]", "[-1]", "[*]", "[:1]", "[?@]", " | [0]", ".x", ".*", "[][]", "[] | [0]", " | length(@)", "[*][0]", " || 'dflt'", " && `1`", " == `null`", "[0] == `null`"]
+for m, q in itertools.product(mss, mposts):
+    for pre in ["", "nope | ", "c.nope | ", "a | ", "c | ", "@ | ", "s | "]:
+        add("msnull", pre + m + q, mdoc2)
+    add("msnull", m + q, None)
+    add("msnull", "map(&%s%s, @)" % (m, q), [None, [1], {"a": [2]}])
+# ---------------------------------------------------------------- exprefbody
+# an expression reference whose body STARTS with every kind of token that can start an expression, followed by every kind of continuation:
+# the body extends as far as an expression does (binding power 0)
+edoc2 = {"items": [{"a": None, "b": {"c": 1}, "n": [1, 2], "k": True, "v": [3]}, {"a": {"c": 2}, "b": None, "n": [3], "k": False, "v": [1, 2]}], "rows": [[{"k": 2}], [{"k": 1}]]}
+starts = ["(a || b)", "[0]", "[*]", "[]", "{x: a}", "!a", "*", "[?k]", "@", "`1`", "'s'", "\"a\"", "a", "[a, b]", "&a"]
+conts = ["", ".c", " || b", " && b", " | [0]", " == `1`", "[0]", ".x", "[]", ".n", " | length(@)", ".k", "[*]", " != `null`"]
+for st, ct in itertools.product(starts, conts):
+    add("exprefbody", "map(&%s%s, items)" % (st, ct), edoc2)
+    add("exprefbody", "map(&%s%s, rows)" % (st, ct), edoc2)
+for st, ct in itertools.product(["[0].k", "(@)[0].k", "[0] | k", "[*].k | [0]", "{x: [0].k}.x", "!`false` && [0].k", "[?k].k | [0]", "*[0]", "@[0].k", "[-1].k"], ["", " || `0`"]):
+    for f in ("sort_by", "max_by", "min_by"):
+        add("exprefbody", "%s(rows, &%s%s)" % (f, st, ct), edoc2)
+# ---------------------------------------------------------------- firstnull
+# projections some of whose results are null (dropped), then an index / slice / pipe that depends on WHICH results remain
+fdoc2 = {"rows": [{"ok": False, "id": 1}, {"ok": True}, {"ok": True, "id": 3, "tags": ["x"]}, {"ok": True, "id": 4, "tags": []}, {"id": 5}], "m": [[None], [None, 2], [3]]}
+for proj in ["rows[?ok].id", "rows[*].id", "rows[?ok].tags[0]", "rows[?ok == `true`].id", "rows[].id", "rows[?ok].tags", "rows[1:].id", "rows[?!ok].id", "rows[*].tags[0]", "m[*][0]", "m[][0]",
+             "rows[?ok].[id]", "rows[?ok].{i: id}", "rows[?id].ok", "rows[?tags].id", "rows[?ok] | [*].id"]:
+    for tail in [" | [0]", " | [1]", " | [-1]", " | [:1]", " | length(@)", " | [0] || 'none'", ""]:
+        add("firstnull", proj + tail, fdoc2)
+        add("firstnull", "{first: %s%s}" % (proj, tail), fdoc2)
+    for tail in ["[0]", "[-1]", "[1]", "[:1]"]:
+        add("firstnull", "(%s)%s" % (proj, tail), fdoc2)
+# ---------------------------------------------------------------- bignums
+# integers beyond 2^53 and 2^63 (at most nine significant digits: inside the number model) next to fractions and small integers, in every
+# order, under the sorting / extreme functions and comparisons: a number is a number whatever its size and spelling
+big = [9100000000000000, 1200000000000000000, -9100000000000000, 18000000000000000000, 36000000000000000]
+small = [2.5, 7, 0.5, 3, -1]
+for perm in [[big[0], 2.5], [2.5, big[0]], [big[1], 7, 0.5], [0.5, big[1], 7], [big[2], 3, 2.5], [big[0], big[3]], [big[3], big[0], 0.5], [big[4], -1, 2.5], [7, big[2], big[4], 0.5],
+             [big[0], big[0], 2.5], [big[3], 2.5, big[1]]]:
+    recs = [{"k": x, "i": i} for i, x in enumerate(perm)]
+    for t in ["sort_by(@, &k)[*].i", "max_by(@, &k).i", "min_by(@, &k).i", "sort(@[*].k)", "max(@[*].k)", "min(@[*].k)", "sort_by(@, &(k || `0`))[*].i", "@[?k > `5`].i", "@[?k >= `2.5`].i",
+              "map(&abs(k), @)", "@[*].k | sort(@) | [0]", "sort_by(@, &abs(k))[*].i", "contains(@[*].k, @[0].k)", "@[0].k == @[-1].k", "@[0].k < @[-1].k", "reverse(sort(@[*].k))"]:
+        add("bignums", t, recs)
+
+# ---------------------------------------------------------------- zeropad
+# number tokens written with leading zeros (the grammar's number is an optional "-" and one or more digits) in every index and slice slot
+zdoc = {"foo": list(range(12))}
+for t in ["foo[01]", "foo[010]", "foo[00]", "foo[01:03]", "foo[1:03]", "foo[:011]", "foo[::02]", "foo[00:]", "foo[009::-3]", "foo[*] | [02:5]", "foo[007]", "foo[0011]", "foo[-01]", "foo[-007:]",
+          "foo[0:010:02]", "foo[0000000001]", "foo[01][0]", "[foo[01], foo[1]]", "foo[01] == foo[1]", "foo[?@ > `3`][01]", "foo[:-01]", "foo[-00]", "foo[1:][00]"]:
+    add("zeropad", t, zdoc)
 R6X = ["bsruns"]
 
 out = os.path.join(VERIF, "spec", "gen", "eval_pools.ndjson")
